@@ -63,6 +63,10 @@ def run(ctx):
               "goroutines": 8 if quick else 16, "iters": 100 if quick else 400},
              {"op": "conc", "sources_hex": [vh.hexs(s) for s in BIG_SOURCES], "texts_hex": [vh.hexs(t) for t in BIG_TEXTS],
               "goroutines": 6, "iters": 4 if quick else 40}]
+    # group numbers run through ALL the regex literals of one source: many rounds on just the sources with several literals (a lock held literal by literal shows only in the gaps)
+    multi = [s for s in SOURCES if s.count("@/") >= 2]
+    if multi:
+        cases.append({"op": "conc", "sources_hex": [vh.hexs(s) for s in multi], "texts_hex": [vh.hexs(t) for t in TEXTS[:4]], "goroutines": 12, "iters": 150 if quick else 600})
     ev = 0
     races = 0
     mism = []
